@@ -410,8 +410,13 @@ def _decide_equal(case, ctx, res, mk, key, suf, x, y, do_replay):
     else:
         # cheap witness search (never counts as "holds"): both sides at two probe points
         wit = _numeric_witness(ctx, x, y)
-        if wit is not None:
-            return _handle_sat(case, ctx, res, mk, key, suf, wit, "numeric witness", do_replay)
+        if wit is not None and do_replay:
+            n_inc = len(res["inconclusive"])
+            r = _handle_sat(case, ctx, res, mk, key, suf, wit, "numeric witness", do_replay)
+            if r == "sat":
+                return r
+            # the floating-point hint did not reproduce (cancellation noise): forget it and ask the solver
+            del res["inconclusive"][n_inc:]
         goal = Rel("!=", node)
         if len(res["samples"]) < 2:
             smt = ctx.smt2_of(goal)
@@ -503,7 +508,7 @@ def _numeric_witness(ctx, x, y):
             continue
         if a != a or b != b:
             continue
-        if abs(a - b) > 1e-6 * (abs(a) + abs(b)) + 1e-13:
+        if abs(a - b) > 1e-6 * (abs(a) + abs(b)) + 1e-7:
             return {n: Fraction(v).limit_denominator(10**6) for n, v in env.items()
                     if ctx.var_info.get(n, {}).get("kind") == "input"}
     return None
